@@ -34,9 +34,10 @@ def gen_cases(rnd, quick):
                     for order in orders[: (2 if quick else 24)]:
                         blocks = {i: bytes(rnd.getrandbits(8) for _ in range(L)) for i in idx}
                         ops = []
+                        shuffled = rnd.random() < 0.5                   # read-back order: store order, or a random one (read-side state)
                         for k, i in enumerate(order):
                             ops.append("s %d %s" % (i, blocks[i].hex()))
-                            for j in order[: k + 1]:
+                            for j in (rnd.sample(order[: k + 1], k + 1) if shuffled else order[: k + 1]):
                                 ops.append("g %d %d" % (j, L))         # everything stored so far reads back unchanged (frame)
                         span = (cnt * L if kind == "D" else cnt * (-(-L // W) * W))
                         length = -(-(span + W) // ERASE) * ERASE
